@@ -1,4 +1,118 @@
-import Stbem.Model.Mesh
+import Stbem.Lemmas.MeshInit
+import Stbem.Lemmas.MeshOps
+
+/-!
+# C02 — the mesh refinement model preserves the mesh invariant
+
+`Inv` (tiling by half-open rectangles, 1-irregularity across edges incl. the glued seam, unique
+element indices) holds for the initial tensor mesh and is preserved by every refinement operation
+of the executable model `Stbem.Model.Mesh`; `refine_axis` never trips its assertions on a leaf and
+its fuel `level + 1` suffices.  Helper lemmas: `Stbem.Lemmas.MeshGeom/MeshRefine/MeshInit/MeshOps`.
+-/
 namespace Stbem.Mesh
-theorem placeholder_c02 : True := trivial
+
+/-- strictly increasing -/
+def StrictInc (l : List Rat) : Prop := l.Pairwise (· < ·)
+
+theorem init_inv (glue : Bool) (X T : List Rat) (hX : StrictInc X) (hT : StrictInc T)
+    (hX2 : 2 ≤ X.length) (hT2 : 2 ≤ T.length) : Inv (init glue X T) :=
+  init_inv' glue X T hX hT hX2 hT2
+
+theorem refines_refl (m : Mesh) : Refines m m := Refines.refl m
+
+theorem refines_trans {a b c : Mesh} (h1 : Refines a b) (h2 : Refines b c) : Refines a c :=
+  h1.trans h2
+
+/-- one legal bisection: all edge-neighbours of `c` are at least as deep in the axis -/
+theorem bisect_inv (m : Mesh) (h : Inv m) (c : Cell) (hc : c ∈ m.leaves) (ax : Ax)
+    (hn : ∀ s, ∀ n ∈ m.leaves, adjacent m c s n = true → c.level ax ≤ n.level ax) :
+    Inv (bisect m c ax) ∧ Refines m (bisect m c ax) :=
+  ⟨bisect_inv' h hc ax (fun s n hnl ha => hn s n hnl (adjacent_iff.mpr ha)), bisect_refines h hc ax⟩
+
+/-- `refine_axis` never fails on a leaf of a mesh satisfying the invariant (no assertion fires, the
+fuel `level+1` suffices), preserves the invariant, removes exactly `c` among the leaves that are at
+least as deep as `c` in the axis, and only refines -/
+theorem refineAxis_ok (m : Mesh) (h : Inv m) (c : Cell) (hc : c ∈ m.leaves) (ax : Ax) (fuel : Nat)
+    (hf : c.level ax < fuel) :
+    ∃ m', refineAxis fuel m c.id ax = .ok m' ∧ Inv m' ∧ Refines m m' ∧ c ∉ m'.leaves ∧
+      (∀ d ∈ m.leaves, d ≠ c → c.level ax ≤ d.level ax → d ∈ m'.leaves) := by
+  obtain ⟨m', h1, r⟩ := refineAxis_res ax fuel m c h hc hf
+  exact ⟨m', h1, r.inv, r.ref, r.gone, r.keep⟩
+
+theorem refineId_ok (m : Mesh) (h : Inv m) (c : Cell) (hc : c ∈ m.leaves) (ax : Ax) :
+    ∃ m', refineId m c.id ax = .ok m' ∧ Inv m' ∧ Refines m m' := by
+  obtain ⟨m', h1, r⟩ := refineId_res h hc ax
+  exact ⟨m', h1, r.inv, r.ref⟩
+
+/-- whatever id is passed: if the call returns, the invariant holds -/
+theorem refineId_inv (m : Mesh) (h : Inv m) (id : Nat) (ax : Ax) (m' : Mesh)
+    (hr : refineId m id ax = .ok m') : Inv m' ∧ Refines m m' :=
+  refineId_inv' h hr
+
+theorem refineBoth_ok (m : Mesh) (h : Inv m) (c : Cell) (hc : c ∈ m.leaves) :
+    ∃ r, refineBoth m c.id = .ok r ∧ Inv r.1 ∧ Refines m r.1 :=
+  refineBoth_res h hc
+
+theorem refineAll_inv (m : Mesh) (h : Inv m) (ids : List Nat) (ax : Ax) (m' : Mesh)
+    (hr : refineAll m ids ax = .ok m') : Inv m' ∧ Refines m m' :=
+  refineAll_inv' h hr
+
+theorem uniformRefine_inv (m : Mesh) (h : Inv m) (m' : Mesh)
+    (hr : uniformRefine m = .ok m') : Inv m' ∧ Refines m m' :=
+  uniformRefine_inv' h hr
+
+theorem uniformRefineSpace_inv (m : Mesh) (h : Inv m) (m' : Mesh)
+    (hr : uniformRefineSpace m = .ok m') : Inv m' ∧ Refines m m' :=
+  uniformRefineSpace_inv' h hr
+
+theorem dorflerIso_inv (m : Mesh) (h : Inv m) (eta : List Rat) (perm : List Nat) (theta : Rat)
+    (m' : Mesh) (hr : dorflerIso m eta perm theta = .ok m') : Inv m' ∧ Refines m m' :=
+  dorflerIso_inv' h hr
+
+theorem dorflerAniso_inv (m : Mesh) (h : Inv m) (eta : List (Rat × Rat)) (theta : Rat)
+    (m' : Mesh) (hr : dorflerAniso m eta theta = .ok m') : Inv m' ∧ Refines m m' :=
+  dorflerAniso_inv' h hr
+
+theorem grading_inv (fixed : Bool) (fuel : Nat) (m : Mesh) (h : Inv m) (p q : Nat) (K : Rat)
+    (m' : Mesh) (hr : grading fixed fuel m p q K = .ok m') : Inv m' ∧ Refines m m' :=
+  grading_inv' fixed fuel h hr
+
+
+
+/-! ### non-vacuity: the hypotheses are satisfiable and the model really runs -/
+
+/-! ## non-vacuity -/
+
+theorem strictInc_012 : StrictInc [0, 1, 2] := by
+  simp [StrictInc]
+
+theorem strictInc_01 : StrictInc [0, 1] := by
+  simp [StrictInc]
+
+/-- a concrete glued mesh satisfying the invariant -/
+theorem inv_example : Inv (init true [0, 1, 2] [0, 1]) :=
+  init_inv true [0, 1, 2] [0, 1] strictInc_012 strictInc_01 (by simp) (by simp)
+
+def leafIds (r : Except String Mesh) : Option (List Nat × Nat) :=
+  match r with
+  | .ok m => some (m.leaves.map (·.id), m.nElems)
+  | .error _ => none
+
+/-- two roots `0 = [0,1]`, `1 = [1,2]`; refining `0` in space gives `2, 3`; refining `3` again in
+space forces the recursive refinement of its coarser neighbour `1` (children `4, 5`) before `3`
+is bisected (children `6, 7`) -/
+theorem run_example :
+    leafIds (do
+      let m ← refineId (init true [0, 1, 2] [0, 1]) 0 .space
+      refineId m 3 .space) = some ([2, 4, 5, 6, 7], 8) := by
+  decide +kernel
+
+/-- a stale id is rejected (the `assert not elem.children` of the Python code) -/
+theorem run_example_stale :
+    leafIds (do
+      let m ← refineId (init true [0, 1, 2] [0, 1]) 0 .space
+      refineId m 0 .space) = none := by
+  decide +kernel
+
+
 end Stbem.Mesh
